@@ -1140,6 +1140,27 @@ def gen_fitcrop(repo):
     out += 'def fitCropSource : String := "%s"\n\n' % ' '.join(body.split()).replace('"', '\\"')
     return out
 
+def gen_simd_alpha(repo):
+    out = ''
+    rows = []
+    for f, fn in (('src/alpha/u8x4/sse4.rs', 'divide_alpha_4_pixels'), ('src/alpha/u8x4/avx2.rs', 'divide_alpha_8_pixels'),
+                  ('src/alpha/u8x2/sse4.rs', 'divide_alpha_8_pixels'), ('src/alpha/u8x2/avx2.rs', 'divide_alpha_16_pixels')):
+        with open(os.path.join(repo, f)) as fh:
+            src = fh.read()
+        m = re.search(r'unsafe fn %s\(.*?\n\}' % fn, src, re.S)
+        if not m:
+            raise TranslationError("%s: fn %s not found" % (f, fn))
+        body = re.sub(r'//[^\n]*', '', m.group(0))
+        body = re.sub(r'/\*.*?\*/', '', body, flags=re.S)
+        # the arithmetic skeleton: every arithmetic intrinsic in textual order, and the constants
+        names = re.findall(r'_mm(?:256)?_(div_ps|mul_ps|cvtps_epi32|cvtepi32_ps|slli_epi16::<\d+>|srli_epi16::<\d+>|srli_epi32::<\d+>|mulhrs_epi16|mulhi_epu16|mullo_epi16|min_epu16|packus_epi16|add_epi16|sub_epi16)\b', body)
+        consts = re.findall(r'_mm(?:256)?_(set1_ps|set1_epi16|set1_epi32)\(([^()]*(?:\([^()]*\))?[^()]*)\)', body)
+        sk = ['%s(%s)' % (n, ' '.join(a.split())) for n, a in consts] + names
+        rows.append((f + '::' + fn, ' '.join(sk)))
+    out += '/-- arithmetic skeleton (intrinsics in order, with their immediates and constants) of the SIMD 8-bit divide_alpha lane kernels -/\n'
+    out += 'def simdDiv8Skeleton : List (String × String) := [\n%s]\n\n' % ',\n'.join('  ("%s", "%s")' % (a, b.replace('"', '\\"')) for a, b in rows)
+    return out
+
 def gen_sizes(repo):
     """Buffer-size expressions of the image constructors."""
     out = ''
@@ -1180,6 +1201,7 @@ GENERATORS = [
     ('CropF64', gen_cropf64),
     ('Color', gen_color),
     ('FitCrop', gen_fitcrop),
+    ('SimdAlpha', gen_simd_alpha),
 ]
 
 def write_if_changed(path, content):
